@@ -791,10 +791,58 @@ func (e *c09Env) run(idx []int) {
 				keys[i] = joinStrs(ks)
 			}
 			e.c.Oracle("snapkeys " + joinInts(idx) + " " + strings.Join(keys, "|"))
+			// the clause "filterResult equal to the jq result for that very object", on every element that shows
+			// its object (Event item, objects[i], snapshot elements): [binding, object(, filterResult)] as shown
+			if fr := c09ShownPairs(items); len(fr) > 0 && !c09SameNames(e.spec) {
+				e.c.Oracle("fr " + g4CanonJSON(fr))
+				e.c.Note("oracle:fr")
+			}
 		}
 	} else {
 		e.c.Oracle("run " + joinInts(idx) + " " + strings.Fields(ans)[0])
 	}
+}
+
+// c09ShownPairs collects, from the items of a rendered file, every element that shows a full object:
+// [name of the kubernetes binding it is seen through, the object, the filterResult next to it (if any)].
+func c09ShownPairs(items []map[string]any) []any {
+	out := []any{}
+	elem := func(binding string, v any) {
+		m, ok := v.(map[string]any)
+		if !ok {
+			return
+		}
+		obj, has := m["object"]
+		if !has || obj == nil {
+			return
+		}
+		t := []any{binding, obj}
+		if fr, has := m["filterResult"]; has {
+			t = append(t, fr)
+		}
+		out = append(out, t)
+	}
+	for _, it := range items {
+		b, _ := it["binding"].(string)
+		if it["type"] == "Event" {
+			elem(b, it)
+		}
+		if objs, ok := it["objects"].([]any); ok {
+			for _, o := range objs {
+				elem(b, o)
+			}
+		}
+		if sn, ok := it["snapshots"].(map[string]any); ok {
+			for _, k := range g4SortedKeys(sn) {
+				if objs, ok := sn[k].([]any); ok {
+					for _, o := range objs {
+						elem(k, o)
+					}
+				}
+			}
+		}
+	}
+	return out
 }
 
 // ---- strings whose content is itself a JSON text (a jq result "3" must stay the string "3")
@@ -818,7 +866,107 @@ func c09Spice(rng *Rng, o map[string]any) map[string]any {
 }
 
 func c09Object(rng *Rng, ns, name string) map[string]any {
-	return c09Spice(rng, g4GenObject(rng, ns, name))
+	return c09Meta(rng, c09Spice(rng, g4GenObject(rng, ns, name)))
+}
+
+// ---- what an API server (and other controllers) put into an object and hardly any filter reads:
+// metadata.managedFields, annotations (kubectl's last-applied-configuration: a JSON text), ownerReferences,
+// finalizers, uid / resourceVersion / generation / creationTimestamp. "filterResult is the jq result for
+// that very object" speaks about every key of the object: the object the filter sees must be the object
+// shown, not a trimmed or normalised copy of it.
+var c09Managers = []string{"kubectl-client-side-apply", "helm", "kube-controller-manager", "shell-operator"}
+
+func c09ManagedFields(managers ...string) []any {
+	out := []any{}
+	for i, m := range managers {
+		op := "Update"
+		if i%2 == 1 {
+			op = "Apply"
+		}
+		out = append(out, map[string]any{"manager": m, "operation": op, "apiVersion": "v1", "fieldsType": "FieldsV1",
+			"time":     fmt.Sprintf("2024-01-0%dT00:00:00Z", i+1),
+			"fieldsV1": map[string]any{"f:data": map[string]any{".": map[string]any{}, "f:k": map[string]any{}}, "f:spec": map[string]any{"f:replicas": map[string]any{}}}})
+	}
+	return out
+}
+
+// the keys of metadata c09Meta may set (and the filters of c09MetaPaths read)
+var c09MetaKeys = []string{"managedFields", "annotations", "ownerReferences", "finalizers", "uid", "resourceVersion", "generation", "creationTimestamp"}
+
+func c09MetaValue(rng *Rng, key string) any {
+	switch key {
+	case "managedFields":
+		ms := []string{}
+		for n := rng.Range(1, 3); n > 0; n-- {
+			ms = append(ms, PickOne(rng, c09Managers))
+		}
+		return c09ManagedFields(ms...)
+	case "annotations":
+		a := map[string]any{"kubectl.kubernetes.io/last-applied-configuration": PickOne(rng, []string{
+			"{\"apiVersion\":\"v1\",\"kind\":\"ConfigMap\"}", "{\"data\":{\"k\": 1}}"})}
+		if rng.Bool() {
+			a["note"] = PickOne(rng, []string{"a b", "3", "null"})
+		}
+		return a
+	case "ownerReferences":
+		return []any{map[string]any{"apiVersion": "apps/v1", "kind": "Deployment", "name": PickOne(rng, []string{"d1", "d2"}),
+			"uid": "00000000-0000-0000-0000-00000000000" + PickOne(rng, []string{"1", "2"}), "controller": true}}
+	case "finalizers":
+		return []any{PickOne(rng, []string{"example.com/hold", "kubernetes"})}
+	case "uid":
+		return "11111111-2222-3333-4444-00000000000" + PickOne(rng, []string{"1", "2", "3"})
+	case "resourceVersion":
+		return PickOne(rng, []string{"1", "12", "345"})
+	case "generation":
+		return int64(rng.Range(1, 4))
+	default: // creationTimestamp
+		return fmt.Sprintf("2024-02-0%dT10:00:00Z", rng.Range(1, 9))
+	}
+}
+
+// c09Meta: 60% of the objects carry server-populated metadata (managedFields most often); on an update
+// (the keys are there already) some of them are redrawn or dropped - a change no ordinary filter sees.
+func c09Meta(rng *Rng, o map[string]any) map[string]any {
+	if !rng.Chance(60) {
+		return o
+	}
+	for _, k := range c09MetaKeys {
+		p := 30
+		if k == "managedFields" {
+			p = 75
+		}
+		if !rng.Chance(p) {
+			continue
+		}
+		if _, has := g4GetPath(o, []string{"metadata", k}); has && rng.Chance(30) {
+			g4DelPath(o, []string{"metadata", k})
+			continue
+		}
+		g4SetPath(o, []string{"metadata", k}, c09MetaValue(rng, k))
+	}
+	return o
+}
+
+// filter paths over these keys (none of them indexes into a leaf value: such a filter cannot fail)
+var c09MetaPaths = [][]string{{"metadata"}, {"metadata", "managedFields"}, {"metadata", "managedFields"}, {"metadata", "annotations"},
+	{"metadata", "ownerReferences"}, {"metadata", "finalizers"}, {"metadata", "uid"}, {"metadata", "resourceVersion"},
+	{"metadata", "generation"}, {"metadata", "creationTimestamp"}, {"metadata", "namespace"}, {"kind"}, {"apiVersion"}, {}}
+
+var c09SafeFilterPaths = append(append([][]string{}, g4SafeFilterPaths...), c09MetaPaths...)
+
+// c09ManagedObj: a fixed object as a real cluster shows it.
+func c09ManagedObj(ns, name string, replicas int64, managers ...string) map[string]any {
+	o := c08Obj(ns, name, replicas, "x", 0)
+	meta := o["metadata"].(map[string]any)
+	meta["managedFields"] = c09ManagedFields(managers...)
+	meta["annotations"] = map[string]any{"kubectl.kubernetes.io/last-applied-configuration": "{\"apiVersion\":\"v1\",\"kind\":\"ConfigMap\"}"}
+	meta["ownerReferences"] = []any{map[string]any{"apiVersion": "apps/v1", "kind": "Deployment", "name": "d1", "uid": "u-1", "controller": true}}
+	meta["finalizers"] = []any{"example.com/hold"}
+	meta["uid"] = "11111111-2222-3333-4444-000000000001"
+	meta["resourceVersion"] = fmt.Sprint(10 + replicas)
+	meta["generation"] = replicas
+	meta["creationTimestamp"] = "2024-02-01T10:00:00Z"
+	return o
 }
 
 // c09SpiceLits: string literals of a filter become JSON-looking strings (the filter `"3"` yields the string "3").
@@ -849,7 +997,7 @@ func c09SpiceLits(rng *Rng, f *jqF) {
 // fired all the same, with a bare result) or by an update to a state every filter accepts.
 var c09TrapPaths = [][]string{{"spec", "replicas", "x"}, {"spec", "a", "y"}}
 
-var c09FailingFilterPaths = append(append([][]string{}, g4SafeFilterPaths...), c09TrapPaths...)
+var c09FailingFilterPaths = append(append([][]string{}, c09SafeFilterPaths...), c09TrapPaths...)
 
 // c09Fails: does the jqFilter of some binding watching ns fail on obj (asked of the real applyFilter)?
 func c09Fails(spec *c09Spec, ns string, obj map[string]any) bool {
@@ -915,7 +1063,7 @@ func c09RawObj(ns, name string, replicas, a any) map[string]any {
 }
 
 func runC09(r *Run) {
-	r.Rule = "per case: one hook configuration (configVersion v1 or v0) rendered as JSON and loaded by the real loader: 1-3 kubernetes bindings (jq filter of the fragment: object/array/scalar/string/null results, string literals and object leaves whose content is itself a JSON text (3, true, null, an object, a quoted string), or none; 30% of the filters read through a leaf value and fail on some object states - such a state never exists before Synchronization and is followed at once, without a render, by the delete of the object (whose Deleted item is rendered) or by an update every filter accepts; keepFullObjectsInMemory on/off; group; includeSnapshotsFrom incl. self-include; executeHookOnEvent subset; one of two namespaces), optional onStartup, 0-3 schedule bindings (each with a crontab of its own; names from a small pool incl. unnamed, so that bindings of one type often share a name while only some of them include snapshots), kubernetesValidating, kubernetesMutating, 0-2 kubernetesCustomResourceConversion bindings (1-3 conversions each, all rules of the hook distinct, versions with or without the API group, mostly one name; a request for one rule or for every rule of a binding in either order, through the real EnableConversionBindings + HandleConversionEvent) with group / includeSnapshotsFrom; every 4th v1 hook in big-group mode: a group of 2-8 (mostly 3, 5, 6, 7) kubernetes bindings among 2-3 outside ones, members of any type naming one or two outside bindings in their own includeSnapshotsFrom; real monitors on kube-client/fake; 0-3 objects before Synchronization, then 2-7 creates/updates/deletes through the dynamic tracker; every Synchronization/Event context the controllers produce plus schedule/admission/conversion/onStartup contexts is rendered alone and in combined arrays (2-4 contexts) through the real Hook.Run (file read back from a real bash hook) or ConvertBindingContextList(...).Json(). A case is non-trivial when it renders >= 3 context lists and at least one Event and one snapshot-carrying context; distinct = distinct op-line sequences."
+	r.Rule = "per case: one hook configuration (configVersion v1 or v0) rendered as JSON and loaded by the real loader: 1-3 kubernetes bindings (jq filter of the fragment: object/array/scalar/string/null results, string literals and object leaves whose content is itself a JSON text (3, true, null, an object, a quoted string), or none; 30% of the filters read through a leaf value and fail on some object states - such a state never exists before Synchronization and is followed at once, without a render, by the delete of the object (whose Deleted item is rendered) or by an update every filter accepts; 40% of the paths a filter reads are over what a real cluster puts into an object - the whole object, the whole metadata, metadata.managedFields / annotations / ownerReferences / finalizers / uid / resourceVersion / generation / creationTimestamp, kind, apiVersion; keepFullObjectsInMemory on/off; group; includeSnapshotsFrom incl. self-include; executeHookOnEvent subset; one of two namespaces), optional onStartup, 0-3 schedule bindings (each with a crontab of its own; names from a small pool incl. unnamed, so that bindings of one type often share a name while only some of them include snapshots), kubernetesValidating, kubernetesMutating, 0-2 kubernetesCustomResourceConversion bindings (1-3 conversions each, all rules of the hook distinct, versions with or without the API group, mostly one name; a request for one rule or for every rule of a binding in either order, through the real EnableConversionBindings + HandleConversionEvent) with group / includeSnapshotsFrom; every 4th v1 hook in big-group mode: a group of 2-8 (mostly 3, 5, 6, 7) kubernetes bindings among 2-3 outside ones, members of any type naming one or two outside bindings in their own includeSnapshotsFrom; real monitors on kube-client/fake; 60% of the objects carry server-populated metadata (managedFields with 1-3 managers in 75% of them, kubectl last-applied annotation, ownerReferences, finalizers, uid, resourceVersion, generation, creationTimestamp), redrawn or dropped on updates; 0-3 objects before Synchronization, then 2-7 creates/updates/deletes through the dynamic tracker; every Synchronization/Event context the controllers produce plus schedule/admission/conversion/onStartup contexts is rendered alone and in combined arrays (2-4 contexts) through the real Hook.Run (file read back from a real bash hook) or ConvertBindingContextList(...).Json(). After every render, besides the whole-file oracle, every element the file shows together with its full object (Event item, objects[i], snapshot elements) is judged by `oracle fr`: the filterResult shown is the jq result of the binding's jqFilter for the object shown. A case is non-trivial when it renders >= 3 context lists and at least one Event and one snapshot-carrying context; distinct = distinct op-line sequences."
 
 	// ---- corpus: the counterexamples of the repaired defects
 	corpus := []struct {
@@ -1290,6 +1438,55 @@ func runC09(r *Run) {
 		c.Note(fmt.Sprintf("sweep:group-of-%d", g))
 	})
 
+	// ---- the object the filter sees is the object shown: objects as a real cluster shows them (managedFields,
+	//      annotations, ownerReferences, finalizers, uid, resourceVersion, generation, creationTimestamp) and filters
+	//      over exactly these keys, the whole metadata and the whole object; an update that changes nothing but
+	//      metadata.managedFields; 6 filters x keepFullObjectsInMemory
+	metaFilters := []*jqF{g4Path(), g4Path("metadata"), g4Path("metadata", "managedFields"),
+		g4ObjF(g4Fld("m", g4Path("metadata", "managedFields")), g4Fld("a", g4Path("metadata", "annotations")), g4Fld("n", g4Path("metadata", "name"))),
+		g4ArrF(g4Path("metadata", "ownerReferences"), g4Path("metadata", "finalizers"), g4Path("metadata", "resourceVersion"), g4Path("metadata", "generation")),
+		g4AltF(g4Path("metadata", "managedFields"), g4Lit("none"))}
+	r.Cases(140, 12, 12, func(c *Case, _ *Rng) {
+		k := c.Idx - 140
+		f, keep := metaFilters[k%6], k/6 == 0
+		ns := fmt.Sprintf("c09-%d-a", c.Idx)
+		c.Desc = fmt.Sprintf("metadata sweep: filter=%s keep=%v over objects with server-populated metadata", f.text(), keep)
+		spec := &c09Spec{Version: "v1",
+			KBs: []c09KB{{Name: "k1", NS: ns, F: f, Keep: keep, Inc: []string{"k1", "k2"}},
+				{Name: "k2", NS: ns, F: g4Path("metadata", "managedFields"), Keep: !keep, Types: []kemtypes.WatchEventType{}}},
+			Others: []c09OtherB{{Kind: "schedule", Name: "s1", Inc: []string{"k2", "k1"}}}}
+		e := c09Start(r, c, spec)
+		defer e.close()
+		if e == nil {
+			return
+		}
+		ok := e.change("put", ns, "o1", c09ManagedObj(ns, "o1", 1, "kubectl-client-side-apply", "helm")) &&
+			e.change("put", ns, "o2", c08Obj(ns, "o2", 2, "y", 0)) && e.sync()
+		if !ok {
+			return
+		}
+		e.run([]int{0})
+		e.run([]int{1})
+		// a new managed object; o1 changes in managedFields only; o2 gets its metadata; the new object goes
+		ok = e.change("put", ns, "o3", c09ManagedObj(ns, "o3", 3, "kube-controller-manager")) &&
+			e.change("put", ns, "o1", c09ManagedObj(ns, "o1", 1, "helm")) &&
+			e.change("put", ns, "o2", c09ManagedObj(ns, "o2", 2, "shell-operator", "helm", "kubectl-client-side-apply")) &&
+			e.change("del", ns, "o3", nil)
+		if !ok {
+			return
+		}
+		e.mkSchedule(0)
+		all := []int{}
+		for i := 2; i < len(e.ctxs); i++ {
+			e.run([]int{i})
+			all = append(all, i)
+		}
+		e.run(all)
+		e.run(append([]int{0, 1}, all...))
+		c.Nontrivial = true
+		c.Note("sweep:server-metadata")
+	})
+
 	// ---- systematic sweep: every combination of the options the contract mentions
 	//   version v1: filter result kind (none/object/scalar/array/null/string) x keepFullObjectsInMemory x group x
 	//   includeSnapshotsFrom (none / self / the other binding) = 6*2*2*3 = 72 hooks, each with a kubernetes binding,
@@ -1408,7 +1605,7 @@ func runC09(r *Run) {
 		c.Note("sweep:v0")
 	})
 	r.Exhaust = true
-	r.Extra["exhaustive_scope"] = "option sweep: v1 = 6 filter result kinds x keepFullObjectsInMemory x group x 3 includeSnapshotsFrom shapes (72 hooks with kubernetes/schedule/validating/mutating/conversion/onStartup contexts, the conversion binding with 2 or 3 conversions and a request for every rule, each with a second schedule and a second conversion binding of the same name and the complementary include option, before or after its namesake), v0 = 6 filter kinds x 4 event lists (24 hooks); group sweep = groups of 1..8 kubernetes bindings x 2 arrangements of the members' own includeSnapshotsFrom (16 hooks, every member's context rendered); the cluster histories are sampled, not enumerated"
+	r.Extra["exhaustive_scope"] = "option sweep: v1 = 6 filter result kinds x keepFullObjectsInMemory x group x 3 includeSnapshotsFrom shapes (72 hooks with kubernetes/schedule/validating/mutating/conversion/onStartup contexts, the conversion binding with 2 or 3 conversions and a request for every rule, each with a second schedule and a second conversion binding of the same name and the complementary include option, before or after its namesake), v0 = 6 filter kinds x 4 event lists (24 hooks); group sweep = groups of 1..8 kubernetes bindings x 2 arrangements of the members' own includeSnapshotsFrom (16 hooks, every member's context rendered); metadata sweep = 6 filters over server-populated metadata (., .metadata, .metadata.managedFields, object / array / alternative results over managedFields, annotations, ownerReferences, finalizers, resourceVersion, generation) x keepFullObjectsInMemory (12 hooks; objects with and without managedFields, an update that changes managedFields only); the cluster histories are sampled, not enumerated"
 
 	n := r.N(300, 10000)
 	r.Cases(200, n, 12, func(c *Case, rng *Rng) { c09Random(r, c, rng) })
@@ -1487,7 +1684,7 @@ func c09Random(r *Run, c *Case, rng *Rng) {
 			if rng.Chance(30) {
 				b.F, b.MayFail = g4GenProg(rng, 2, c09FailingFilterPaths), true
 			} else {
-				b.F = g4GenProg(rng, 2, g4SafeFilterPaths)
+				b.F = g4GenProg(rng, 2, c09SafeFilterPaths)
 			}
 			c09SpiceLits(rng, b.F)
 		}
@@ -1630,7 +1827,7 @@ func c09Random(r *Run, c *Case, rng *Rng) {
 					return
 				}
 			default:
-				o = c09Spice(rng, c08Mutate(rng, cur, nil, "any"))
+				o = c09Meta(rng, c09Spice(rng, c08Mutate(rng, cur, nil, "any")))
 			}
 			if o == nil {
 				break
